@@ -344,6 +344,13 @@ def run_property(pid: str, tier: str, seed: int) -> int:
         if problems:
             print("ERROR audit failed:\n" + "\n".join(problems))
             return 2
+        if tier == "thorough" and not os.environ.get("VERIF_SKIP_LEANCHECKER"):
+            # independent re-check of the compiled .olean files of the property's modules
+            rc_lc, out_lc = sh(["lake", "env", "leanchecker"] + list(mod.LEAN_MODULES), cwd=LEAN, timeout=3000)
+            if rc_lc != 0:
+                print("ERROR leanchecker rejected the compiled modules:\n" + out_lc[-1500:])
+                return 2
+            gen_info["leanchecker"] = "ok"
 
     # 4. correspondence
     fams: list[Family] = []
@@ -421,6 +428,7 @@ def run_property(pid: str, tier: str, seed: int) -> int:
             + list(getattr(mod, "TRUSTED", [])),
             "theorems": {t: axioms[t] for t in theorems},
             "table_obligations": table_obls,
+            "leanchecker": gen_info.get("leanchecker", "not run (quick tier)"),
             "correspondence": [
                 {"family": f.name, "evaluations": f.evaluations, "distinct_nontrivial": len(f.nontrivial),
                  "disagreements": len(f.disagreements), "exhaustive": f.exhaustive, "note": f.note}
